@@ -40,6 +40,15 @@ def gen_base(rng):
         x.date = '2020/%02d/%02d' % (rng.randrange(1, 13), rng.randrange(1, 29))
         x.orig = i
         xs.append(x)
+    # display style: some amounts of one commodity are written with thousands marks - the commodity learns the style from
+    # any of them, whatever their precision and wherever they stand
+    if rng.random() < 0.4:
+        big = [p.amt for x in xs for p in x.posts if p.amt is not None and p.amt.sym and abs(p.amt.value) >= 1000]
+        if big:
+            sym = rng.choice(big).sym
+            for a in big:
+                if a.sym == sym and rng.random() < 0.5:
+                    a.marks = True
     return xs
 
 
